@@ -141,6 +141,14 @@ def lhs_catalogue(W):
          lambda x, y, z, i: Array([x, y, z])[i]),
         ("part-of-array", [sh, (2, False)], [(1, False), (2, False)],
          lambda x, y, i, o: __import__("amaranth").hdl.Value.cast(Array([x, y])[i]).bit_select(o, 2)),
+        # concatenations of three and more parts of different widths, whole and through windows reaching the later parts
+        ("cat3", [sh, (2, True), (1, False)], [], lambda x, y, z: Cat(x, y, z)),
+        ("slice-of-cat3-tail", [sh, (2, True), sh], [], lambda x, y, z: Cat(x, y, z)[W + 1:2 * W + 1]),
+        ("slice-of-cat3-all", [(2, False), (1, True), sh], [], lambda x, y, z: Cat(x, y, z)[1:W + 2]),
+        ("part-of-cat3", [(2, False), (1, False), (2, True)], [(3, False)], lambda x, y, z, o: Cat(x, y, z).bit_select(o, 3)),
+        ("word-of-cat3", [(2, False), (3, False), (1, True)], [(2, False)], lambda x, y, z, o: Cat(x, y, z).word_select(o, 2)),
+        ("slice-of-cat4", [sh, (1, False), (2, True)], [], lambda x, y, z: Cat(x[0:1], y, z, x[1:W])[1:W + 2]),
+        ("const-part-of-cat3", [(2, False), (2, False), (2, True)], [], lambda x, y, z: Cat(x, y, z).bit_select(3, 3)),
     ]
     for name, tshs, ashs, fn in d2:
         cat.append((name, tshs, ashs, fn))
